@@ -74,6 +74,12 @@ def analyse_number(sp, out, value, ulp, prec):
             probs.append(('percent-although-it-fits', '%r: the representation behind %% is not longer than the field' % out))
     elif len(out) != sp.width:
         probs.append(('wrong-width', '%r has %d characters, the field declares %d' % (out, len(out), sp.width)))
+    if overflow and sp.sci:
+        # the exponent absorbs the magnitude: a number fits a ^^^^ field whenever there is a place for its sign -
+        # a sign position of the field, or the position before the point that ^^^^ fields keep for the sign
+        # (not kept in $$ fields); a non-negative number always fits
+        if value >= 0 or sp.lead_plus or sp.trail or (sp.before >= 1 and not sp.dollar):
+            probs.append(('percent-in-scientific-notation', '%r: the number fits the field in scientific notation' % out))
     m = _OUT.match(text)
     if not m:
         probs.append(('malformed', '%r is not [fill][sign][$]digits[.digits][E+nn][sign]' % out))
